@@ -425,7 +425,7 @@ pub fn run(ctx: &Ctx) -> Report {
     total.extra.insert("keywords".into(), json!(kws));
 
     // random members / non-members over the whole vocabulary
-    let cases = ctx.tier.pick(40_000u32, 1_200_000u32);
+    let cases = ctx.tier.pick(400_000u32, 4_000_000u32);
     let shards = 16;
     let rnd = run_shards(shards, |shard| {
         let mut st = Stats::new();
